@@ -199,6 +199,23 @@ PLANS = {
                              else {"call": o["src"], "params": o["ps"], "outcomes": o["outs"]}),
         "assumptions": ["watchdog of 20 s per call decides 'hang'", "TLC, Json module, harness recording"],
     },
+    "C15": {
+        "mc": {"quick": [{"module": "MCInfix", "cfg": "cfg/MCInfix.quick.cfg"}],
+               "thorough": [{"module": "MCInfix", "cfg": "cfg/MCInfix.thorough.cfg", "timeout": 3400}]},
+        "drive": {"quick": [{"args": ["infix", "-n", "3000", "-depth", "5", "-seed", "{seed}"]}],
+                  "thorough": [{"args": ["infix", "-n", "80000", "-depth", "6", "-seed", "{seed}"]}]},
+        "judge": {"module": "JudgeInfix", "cfg": "JudgeInfix.cfg"},
+        "replay_args": ["infix", "-n", "0"],
+        "engine": "frontend",
+        "rule": "one case = (typed tree over all binary infix operators, unary !, named n-ary calls, if, bracket lists; rendering "
+                "style in {minimal parentheses spaced, minimal spacing, redundant parentheses spaced, redundant + minimal "
+                "spacing}; option subset; 3 bindings); judged: infix compilation = prefix compilation (Dump text, DumpTable, "
+                "results) and, with optimizations off, the decompiled tree is the source tree; non-trivial = trees of four or "
+                "more nodes",
+        "sample": lambda o: {"prefix": o["src"], "infix": [v["text"] for v in o["infix"]], "results": o["prefix"]["res"]},
+        "assumptions": ["the harness' infix renderer parenthesises by the documented precedence table (the same rule MCInfix checks on the model)",
+                        "TLC, Json module, harness recording"],
+    },
 }
 
 ENGINES = [
@@ -211,6 +228,6 @@ ENGINES.append({"name": "capacity", "path": "spec/Capacity.tla, MCCap.tla, Judge
                 "serves_properties": ["C09"],
                 "kind_free_text": "scaled-down limits model-checked; real limits judged by closed forms"})
 ENGINES.append({"name": "frontend", "path": "spec/Lexer.tla, Formatter.tla, Parser.tla, MCLayout.tla, MCParse.tla, JudgeLayout.tla, JudgeTotal.tla + harness/fam_layout.go, fam_total.go",
-                "serves_properties": ["C06", "C14"],
+                "serves_properties": ["C06", "C14", "C15"],
                 "kind_free_text": "lexer and formatter as character-level machines over model characters; exhaustive short texts; trace validation of the real lexer/formatter"})
 NOT_APPLICABLE = {}
